@@ -77,7 +77,8 @@ CHECKS = {
              "are passed to IBAN.generate and BBAN.from_components; the result must be a reference-valid IBAN carrying "
              "norm(value).zfill(width) at the table position (combined bank code split), or a library error - of the class "
              "specific to an over-long component when one is over-long. Nothing else may escape. Includes whitespace-only and upper-case-"
-             "lengthening components and calls after other uses of the country.",
+             "lengthening components, grouped spellings (60-16-13), calls after other uses of the country, and synthetic countries with "
+             "unusual field layouts added by an overlay in a copy of the package.",
         note="Trusted: reference placement model; success is not demanded where the statement allows an error, success counts "
              "per country are reported.",
         design="7/C08"),
@@ -111,7 +112,8 @@ CHECKS = {
         text="Every (country, bank code) key of the bundled registry, unlisted neighbours, an IBAN around every key, and generated "
              "registries (plain and v2 files, duplicates, empty/null BICs, random primary flags) loaded by copies of the package "
              "are compared with a reference index built from the JSON files: candidate multiset, primaries first, 8-char / XXX / "
-             "first choice, InvalidBankCode for unlisted pairs, inversion, IBAN-side bank/bic/names.",
+             "first choice, InvalidBankCode for unlisted pairs (incl. boundary-shifted argument pairs and misshapen codes), inversion, IBAN-side "
+             "bank/bic/names, overlay countries whose lookup key is made of non-adjacent fields.",
         note="Trusted: reference registry loader (vlib/oracles/reg.py); order inside groups is left free.",
         design="7/C12"),
     "C13": dict(
